@@ -170,6 +170,19 @@ func (ex *Exec) model(g *G, fr *Frame, fn *ssa.Function, name string, args []Val
 	case "(*sync.RWMutex).RUnlock":
 		ex.mutexRUnlock(g, args[0].(*PtrV))
 		return true, noResult
+	case "(*sync.WaitGroup).Add":
+		d, ok := args[1].(*Term)
+		if !ok || !d.IsConst() {
+			ex.unsupported("sync.WaitGroup.Add with a symbolic delta")
+		}
+		ex.wgAdd(g, args[0].(*PtrV), int(d.SVal()))
+		return true, noResult
+	case "(*sync.WaitGroup).Done":
+		ex.wgAdd(g, args[0].(*PtrV), -1)
+		return true, noResult
+	case "(*sync.WaitGroup).Wait":
+		ex.wgWait(g, args[0].(*PtrV))
+		return true, noResult
 	case "(*sync.Once).Do":
 		// model: the first caller runs f (others do not wait for it to finish: approximation)
 		oc := args[0].(*PtrV).Cell
